@@ -59,9 +59,10 @@ struct slot_iterator_buf
 
   using iterator_type = signal_impl::const_iterator_type;
 
-  slot_iterator_buf() : c_(nullptr), invoked_(false) {}
+  slot_iterator_buf() : c_(nullptr), r_(), invoked_(false) {}
 
-  slot_iterator_buf(const iterator_type& i, const emitter_type* c) : i_(i), c_(c), invoked_(false)
+  slot_iterator_buf(const iterator_type& i, const emitter_type* c)
+  : i_(i), c_(c), r_(), invoked_(false)
   {
   }
 
